@@ -2190,3 +2190,101 @@ C13_PLATE_PERMUTATION = dict(
     state_calls=[("rng.permutation(__a)", ["ds"], "permutation_names {a} ds", "list name", {"a": "list name"})],
 )
 ALL += [C13_NPLATE_SAMPLE_ID, C13_NPLATE, C13_ENSEMBLE, C13_PLATE_PERMUTATION]
+
+# create_random_holdout (retrospective.py): conventions of C11_BALANCED_HOLDOUT; the single math.ceil(size * fraction) is the exact
+# ceiling or Python's own value (`count`, see Model/RetroHoldout.v)
+_COLS_R = ("treatment_names=__s.treatment_names[{i}], treatment_doses=__s.treatment_doses[{i}], observations=__s.observations[{i}], "
+           "sample_names=__s.sample_names[{i}], plate_names=__s.plate_names[{i}], control_treatment_name=__s.control_treatment_name, "
+           "observation_mask={m}, sample_mapping=__s.sample_mapping, treatment_mapping=__s.treatment_mapping")
+C11_RANDOM_HOLDOUT = dict(
+    _RG, func="create_random_holdout", name="src_random_holdout",
+    pyparams=["screen", "fraction", "rng"],
+    params=[("num", "Z"), ("den", "positive"), ("count", "opt Z"), ("screen", "screen_t"), ("ds", "list draw")],
+    returns="(screen_t * screen_t)", return_state=["ds"],
+    vars={"selection_vector": "bvec", "indices": "list nat", "keep_screen": "screen_t", "holdout_screen": "screen_t"},
+    prims=[
+        ("fraction < 0", "num <? 0", "bool"),
+        ("fraction > 1", "Zpos den <? num", "bool"),
+        ("np.zeros(__s.size, dtype=bool)", "repeat false (length {s})", "bvec", _ST),
+        ("np.arange(__s.size)", "seq 0 (length {s})", "list nat", _ST),
+        ("math.ceil(__s.size * fraction)", "ceil_size {s} num den count", "Z", _ST),
+        ("Screen(" + _COLS_R.format(i="~__v", m="__s.observation_mask[~__v]") + ")", "!screen_without {s} {v}", "screen_t",
+         {"s": "screen_t", "v": "bvec"}),
+        ("Screen(" + _COLS_R.format(i="__v", m="np.ones(np.count_nonzero(__v), dtype=bool)") + ")", "!screen_observed_of {s} {v}",
+         "screen_t", {"s": "screen_t", "v": "bvec"}),
+    ],
+    state_calls=[("rng.choice(__a, __n, replace=False)", ["ds"], "choose {a} {n} ds", "list nat", {"a": "list nat", "n": "Z"})],
+    assign_effects=[("selection_vector[__i] = True", "selection_vector'", "set_true (length screen') {state} {i}")],
+    raises=[("fraction must be between 0 and 1", 5)],
+)
+ALL += [C11_RANDOM_HOLDOUT]
+
+# SparseCoverPlateGenerator._generate_and_unmask_initial_plate and its public wrapper (core.py).  A treatment id is `tid`
+# (None = CONTROL_SENTINEL_VALUE, Model/RetroInit.v); `ctrl` = screen.control_treatment_name (it only enters screen.treatment_ids);
+# a set of ids = any list of its elements; the 1-element array answered by rng.choice(a, size=1) = its element (`nat`).
+# `selection_vector` is read by the while loop although only the for loop assigns it: it is predefined (empty), which is what
+# the model needs when the screen has no sample (Python never reads it then: no treatment remains).
+_TM = "list list tid"
+_SCREEN_WITH = ("Screen(treatment_names=__s.treatment_names, treatment_doses=__s.treatment_doses, observations=__o, "
+                "sample_names=__s.sample_names, plate_names=__p, control_treatment_name=__s.control_treatment_name, "
+                "observation_mask=__m)")
+_TID_PRIMS = [
+    ("CONTROL_SENTINEL_VALUE", "None", "tid"),
+    ("__s.treatment_ids", "treatment_ids ctrl {s}", _TM, _ST),
+    ("np.isin(np.arange(__s.size), __i)", "vof_idx (length {s}) {i}", "bvec", {"s": "screen_t", "i": "list nat"}),
+    ("np.isin(__a, __l)", "isin2 {a} {l}", "list bvec", {"a": _TM, "l": "list tid"}),
+    ("np.any(__m, axis=1)", "any_rows {m}", "bvec", {"m": "list bvec"}),
+    ("np.all(__m, axis=1)", "all_rows {m}", "bvec", {"m": "list bvec"}),
+    ("~__m", "not2 {m}", "list bvec", {"m": "list bvec"}),
+    ("~__v", "map negb {v}", "bvec", {"v": "bvec"}),
+    ("__m.flatten()", "concat {m}", "list tid", {"m": _TM}),
+    ("__s.subset(__v)", "subset_of {s} {v}", "subset_t", {"s": "screen_t", "v": "bvec"}),
+    ("__s.to_screen()", "to_screen {s}", "screen_t", {"s": "subset_t"}),
+]
+C13_SPARSE_COVER = dict(
+    _RG, cls="SparseCoverPlateGenerator", func="_generate_and_unmask_initial_plate", name="src_sparse_cover",
+    pyparams=["self", "screen", "rng"],
+    params=[("ctrl", "name"), ("reveal", "bool"), ("screen", "screen_t"), ("ds", "list draw"), ("fuel", "nat")],
+    returns="screen_t", return_state=["ds"], while_fuel="fuel", while_cond=True,
+    vars={"covered_treatments": "list tid", "chosen_selection_indices": "list nat", "sample_id": "name",
+          "experiments_with_at_least_one_treatment_not_in_covered_treatments": "bvec", "selection_vector": "bvec",
+          "selection_indices": "list nat", "chosen_selection_index": "nat", "remaining_treatments": "list tid",
+          "experiments_with_at_least_one_treatment_in_remaining_treatments": "bvec", "final_plate_selection_vector": "bvec",
+          "single_drug_experiments": "bvec", "plate_names": "list name", "observation_vector": "list Z"},
+    predefine={"selection_vector": "[]"},
+    prims=_TID_PRIMS + [
+        ("self.reveal_single_treatment_experiments", "reveal", "bool"),
+        ("set()", "[]", "list tid"),
+        ("set(__l)", "{l}", "list tid", {"l": "list tid"}),
+        ("list(__l)", "{l}", "list tid", {"l": "list tid"}),
+        ("__s.unique_sample_ids", "sample_names {s}", "list name", _ST),
+        ("__s.sample_ids == __i", "map (in_sample {i}) {s}", "bvec", {"s": "screen_t", "i": "name"}),
+        ("__a & __b", "vand {a} {b}", "bvec", {"a": "bvec", "b": "bvec"}),
+        ("__a | __b", "vor {a} {b}", "bvec", {"a": "bvec", "b": "bvec"}),
+        ("__v.sum()", "Z.of_nat (vcount {v})", "Z", {"v": "bvec"}),
+        ("np.arange(__v.size)[__m]", "!positions_of (length {v}) {m}", "list nat", {"v": "bvec", "m": "bvec"}),
+        ("__a[__i]", "!rows_at {a} {i}", _TM, {"a": _TM, "i": "list nat"}),
+        ("np.setdiff1d(__a, __l)", "setdiff_ids {a} {l}", "list tid", {"a": _TM, "l": "list tid"}),
+        _LEN_Z,
+        ("np.array(['initial_plate'] * __s.size, dtype=str)", "repeat initial_plate (length {s})", "list name", _ST),
+        ("__s.observations.copy()", "map r_obs {s}", "list Z", _ST),
+        (_SCREEN_WITH, "!screen_with {s} {o} {p} {m}", "screen_t", {"s": "screen_t", "o": "list Z", "p": "list name", "m": "bvec"}),
+    ],
+    state_calls=[
+        ("rng.choice(__a, size=1)", ["ds"], "choose_one {a} ds", "nat", {"a": "list nat"}),
+        ("rng.choice(__a, 1)", ["ds"], "choose_one {a} ds", "nat", {"a": "list nat"}),
+    ],
+    effects=[("covered_treatments.update(__x)", "covered_treatments'", "{state} ++ {x}")],
+    assign_effects=[("plate_names[~__v] = 'unobserved_plate'", "plate_names'", "!label_unobserved {state} {v}")],
+    ignore=["logger.info(__a)"],
+)
+C13_INITIAL_WRAPPER = dict(
+    file="src/batchie/core.py", cls="InitialRetrospectivePlateGenerator", func="generate_and_unmask_initial_plate",
+    out="SrcRetroGen.v", imports=_RG["imports"], name="src_generate_and_unmask_initial_plate",
+    pyparams=["self", "screen", "rng"], params=[("f", "initial_inner"), ("screen", "screen_t"), ("ds", "list draw")],
+    returns="screen_t", return_state=["ds"], vars={},
+    prims=[("__s.is_observed", "forallb r_mask {s}", "bool", _ST)],       # Screen.is_observed = np.all(observation_mask)
+    expr_state_calls=[("self._generate_and_unmask_initial_plate(__s, rng)", ["ds"], "f {s} ds", "screen_t", _ST)],
+    raises=[("must be fully observed", 8)],
+)
+ALL += [C13_SPARSE_COVER, C13_INITIAL_WRAPPER]
